@@ -62,6 +62,7 @@ SPECIAL_ATOMS = (
     "|", "a|b", "|10=000|",
     "0", "-1", "1e5", "Y", "20240101-00:00:00.000",
 )
+VALM_QUICK = ("=", "10=000", "9=12", "8=FIX.4.4", "FIX.4.4", " a ", "|", "\xe9")
 SMALL_ALPHABET = ("a", "=", "1", "0", "8", " ", "|", ".")
 LATIN1_QUICK = ("\xe9", "caf\xe9", "\xa0", "\xff", "\xa3\xb5")
 NON_ASCII_C02 = (
@@ -162,22 +163,26 @@ def config(tier, seed):
         "tier": tier,
         "seed": seed,
         "small_len": 2 if quick else 3,
+        "pair_atoms": 40 if quick else 100,
         "latin1_all": not quick,
         "flat_pool": ("1", "11", "55", "58", "448", "5001", "20228", "100000")
         if quick
         else ("1", "11", "55", "58", "448", "523", "5001", "9999", "20228", "100000"),
         "flat_k": 3,
-        "subset_k": 2 if quick else 3,   # optional-member subsets per item
+        "subset_k": 2 if quick else 4,   # optional-member subsets per item
         "subset_k_small": 3 if quick else 5,  # ... for definitions with <= 8 members
-        "mixed_len": 3,                  # items with different member sets: tuples up to this length
+        "mixed_len": 3 if quick else 4,                  # items with different member sets: tuples up to this length
         "mixed_family": 5 if quick else 7,
         "items_max": 3,
         "nest_w1": 3 if quick else 6,    # how many nested instance variants are combined pairwise
-        "nest_triples": not quick,
-        "sib_r": 2 if quick else 4,
-        "val_all_members": not quick,
-        "cross_modes": ("possdup", "raw") if quick else ("possdup", "raw", "possdup_n_num"),
-        "cross_stride": 7 if quick else 1,
+        "nest_triples": True,
+        "sib_r": 3 if quick else 5,
+        "valm_atoms": VALM_QUICK if quick else None,  # None = the tier's full atom list
+        "cross_modes": (("possdup", "split"), ("possdup", "tail"), ("raw", "split"), ("raw", "tail"))
+        if quick
+        else (("possdup", "split"), ("possdup", "tail"), ("possdup", "head"), ("raw", "head"), ("raw", "tail"),
+              ("possdup_n_num", "head"), ("possdup_n_num", "tail"), ("possdup_n", "tail")),
+        "cross_stride": 2 if quick else 1,
     }
 
 
@@ -377,6 +382,8 @@ def walk_fields(body):
 
 
 def vclass(tag, v):
+    if v.isalnum() and v.isascii():
+        return "plain"
     if "8=FIX." in v:
         return "value_contains_frame_start_marker"
     if "8=FIX." in tag + "=" + v:
@@ -549,6 +556,16 @@ def _shrink_entries(entries):
                         yield entries[:i] + ((e[0], cut),) + entries[i + 1:]
 
 
+def _walk_groups(entries, top=False):
+    """Every nested group entry (not the top-level ones themselves unless the body has more than that)."""
+    for e in entries:
+        if is_group(e):
+            if not top:
+                yield e
+            for it in e[1]:
+                yield from _walk_groups(it)
+
+
 def _shrink_candidates(spec):
     t, tk, body, mode, ctr, num, pos = spec
     if mode != "alloc":
@@ -568,6 +585,13 @@ def _shrink_candidates(spec):
         yield (t, tk, body, mode, ctr, 7, pos)
     if pos != "head":
         yield (t, tk, body, mode, ctr, num, "head")
+    # hoist: one field / one (nested) group instance alone at top level
+    if len(body) > 1 or _depth(body) > 0:
+        for tag, v in walk_fields(body):
+            if vclass(tag, v) != "plain" and tag not in FRAME_TAGS:
+                yield (t, tk, ((tag, v),), mode, ctr, num, pos)
+        for e in _walk_groups(body, top=True):
+            yield (t, tk, (e,), mode, ctr, num, pos)
     for b in _shrink_entries(body):
         yield (t, tk, b, mode, ctr, num, pos)
 
@@ -659,7 +683,9 @@ def nested_instances(g, level):
     ns = TABLE.nested(g)
     if not ns:
         li = leaf_instances(g)
-        return li if level <= 1 else [li[0], li[3 if len(li) > 3 else -1], li[4 if len(li) > 4 else -1]]
+        if level <= 1:
+            return li
+        return list(dict.fromkeys([li[0], li[3 if len(li) > 3 else -1], li[4 if len(li) > 4 else -1]]))
     o = TABLE.plain_others(g)
     fam = [(), tuple(o)] if o else [()]
     items = []
@@ -761,7 +787,9 @@ def units(include_non_ascii=False):
         us.append(("flat", k))
     gs = [g for g in tb.order if tb.usable(g)]
     for g in gs:
-        us.append(("g1", g))
+        n = _g1_parts(g)
+        for p in range(n):
+            us.append(("g1", g, p, n))
     for g in gs:
         us.append(("mixed", g))
     us.append(("val", "flat"))
@@ -775,9 +803,10 @@ def units(include_non_ascii=False):
         us.append(("sib", g))
     for g in gs:
         us.append(("cross", g))
-    if CFG["val_all_members"]:
-        for g in gs:
-            us.append(("valm", g))
+    for g in gs:
+        n = max(1, (len(tb.rg[g]) * len(valm_atoms()) * 3) // 6000)
+        for p in range(n):
+            us.append(("valm", g, p, n))
     if include_non_ascii:
         us.append(("val8", "flat"))
         us.append(("val8", "group"))
@@ -788,15 +817,37 @@ def skipped_definitions():
     return [g for g in TABLE.order if not TABLE.usable(g)]
 
 
-def _g1_bodies(g):
+def _g1_kmax(g, wide=True):
+    if len(TABLE.rg[g]) <= 8:
+        return CFG["subset_k_small"] if wide else 3
+    if len(TABLE.rg[g]) <= 12 and wide:
+        return CFG["subset_k"] + 1
+    return CFG["subset_k"] if wide else 2
+
+
+def _g1_parts(g):
+    import math
+
+    o = TABLE.plain_others(g)
+    n = sum(math.comb(len(o), k) for k in range(0, min(_g1_kmax(g), len(o)) + 1))
+    return max(1, n // 5000)
+
+
+def valm_atoms():
+    return list(CFG["valm_atoms"]) if CFG["valm_atoms"] is not None else atoms(CFG)
+
+
+def _g1_bodies(g, part=0, nparts=1, wide=True):
+    """Single group at top level. Subsets are dealt round-robin to the parts; the rest belongs to part 0."""
     o = TABLE.plain_others(g)
     ns = TABLE.nested(g)
-    kmax = CFG["subset_k_small"] if len(TABLE.rg[g]) <= 8 else CFG["subset_k"]
-    seen = set()
-    for sub in subsets(o, min(kmax, len(o))):
-        seen.add(sub)
-        yield ((g, (make_item(g, sub),)),)
-    if tuple(o) not in seen:
+    kmax = min(_g1_kmax(g, wide), len(o))
+    for i, sub in enumerate(subsets(o, kmax)):
+        if i % nparts == part:
+            yield ((g, (make_item(g, sub),)),)
+    if part != 0:
+        return
+    if kmax < len(o):
         yield ((g, (make_item(g, o),)),)
     if ns:
         mini = {n: (make_item(n),) for n in ns}
@@ -809,9 +860,9 @@ def _g1_bodies(g):
             yield ((g, (make_item(g, sub),) * n),)
 
 
-def _mixed_bodies(g):
+def _mixed_bodies(g, maxlen=None):
     fam = [make_item(g, s) for s in reduced_family(g, CFG["mixed_family"])]
-    for n in range(2, CFG["mixed_len"] + 1):
+    for n in range(2, (maxlen or CFG["mixed_len"]) + 1):
         for tup in itertools.product(fam, repeat=n):
             if len(set(tup)) > 1:
                 yield ((g, tup),)
@@ -932,28 +983,32 @@ def _val_bodies(kind, atom_list):
         for a in atom_list:
             yield (("58", a),)
             yield (("5001", a),)
-        for a in atom_list[:40]:
-            for b in atom_list[:40]:
+        for a in atom_list[:CFG["pair_atoms"]]:
+            for b in atom_list[:CFG["pair_atoms"]]:
                 yield (("11", a), ("58", b))
 
 
-def _valm_bodies(g, atom_list):
-    """Every atom in every plain member of g (first item and last of two items)."""
+def _valm_bodies(g, atom_list, part=0, nparts=1):
+    """Every atom in every plain member of g: single full item, last of two items, middle of three."""
     o = TABLE.plain_others(g)
     d = TABLE.rg[g][0]
     full1 = make_item(g, o)
-    for m in [d] + o:
+    dd = make_item(g)
+    for i, m in enumerate([d] + o):
+        if i % nparts != part:
+            continue
         for a in atom_list:
             it = tuple((e[0], a) if e[0] == m else e for e in full1)
             yield ((g, (it,)),)
-            yield ((g, (make_item(g), it)), ("58", None))
+            yield ((g, (dd, it)), ("58", None))
+            yield (("55", None), (g, (full1, it, dd)))
 
 
 def _cross_specs(g):
     """Group shapes x carried-number modes."""
     stride = CFG["cross_stride"]
     bodies = []
-    for i, b in enumerate(itertools.chain(_g1_bodies(g), _mixed_bodies(g))):
+    for i, b in enumerate(itertools.chain(_g1_bodies(g, wide=False), _mixed_bodies(g, 3))):
         if i % stride == 0:
             bodies.append(b)
     if TABLE.nested(g):
@@ -961,9 +1016,8 @@ def _cross_specs(g):
             if i % (stride * 3) == 0:
                 bodies.append(b)
     for b in bodies:
-        for mode in CFG["cross_modes"]:
-            for pos in ("split", "tail"):
-                yield spec_of(b, mode=mode, ctr=10, num=7, pos=pos)
+        for mode, pos in CFG["cross_modes"]:
+            yield spec_of(b, mode=mode, ctr=10, num=None if mode == "possdup_n" else 7, pos=pos)
 
 
 def _mode_bodies():
@@ -1044,7 +1098,7 @@ def expand(unit):
         for tags in itertools.permutations(CFG["flat_pool"], unit[1]):
             yield spec_of(tuple((t, None) for t in tags))
     elif fam == "g1":
-        for b in _g1_bodies(unit[1]):
+        for b in _g1_bodies(unit[1], unit[2], unit[3]):
             yield spec_of(b)
     elif fam == "mixed":
         for b in _mixed_bodies(unit[1]):
@@ -1068,8 +1122,7 @@ def expand(unit):
         for b in _val_bodies(unit[1], extra):
             yield spec_of(b)
     elif fam == "valm":
-        al = list(SPECIAL_ATOMS) + list(LATIN1_QUICK)
-        for b in _valm_bodies(unit[1], al):
+        for b in _valm_bodies(unit[1], valm_atoms(), unit[2], unit[3]):
             yield spec_of(b)
     elif fam == "cross":
         yield from _cross_specs(unit[1])
